@@ -55,6 +55,14 @@ def topology_record(rid, t):
     return {"kind": "topology", "id": rid, "tree": [list(s) for s in topo.tree_of(t)], **proj}, {**exprs, **masses}
 
 
+def raw_exprs(t):
+    from ampform.kinematics.angles import compute_helicity_angles
+    from ampform.kinematics.lorentz import compute_invariant_masses, create_four_momentum_symbols
+
+    p = create_four_momentum_symbols(t)
+    return {**compute_helicity_angles(p, t), **compute_invariant_masses(p, t)}
+
+
 def adapter_record(rid, initial, permuted):
     from ampform.kinematics import HelicityAdapter
     from ampform.kinematics.angles import compute_helicity_angles
@@ -79,7 +87,7 @@ def adapter_record(rid, initial, permuted):
 def numeric_check(chk, t, exprs, rng, nev, label):
     """Independent boost-and-rotate vs lambdified library expressions on generated events."""
     tree = topo.tree_of(t)
-    proj = topo.project_kinematics(exprs)
+    doc = topo.doc_angles(tree)
     leaves = sorted(i for s in tree if len(s) == 1 for i in s)
     worst = 0.0
     fams = []
@@ -96,9 +104,6 @@ def numeric_check(chk, t, exprs, rng, nev, label):
         else:
             P = numeric.rotate(P, numeric.random_rotation(np.random.default_rng(rng.randrange(2**31))))
         fams.append(fam)
-        byname = {}
-        for a in proj["angles"]:
-            byname.setdefault(tuple(map(tuple, a["name"])), a)
         for cse in (True, False):
             for sym, expr in exprs.items():
                 kind, groups = topo.parse_name(sym.name)
@@ -117,8 +122,11 @@ def numeric_check(chk, t, exprs, rng, nev, label):
                     # the mass of a massless particle is sqrt(~0): absolute comparison
                     d = np.where(ref < 1e-4, np.abs(lib - ref) * 1e-3, d)
                 else:
-                    a = byname[tuple(map(tuple, groups))]
-                    th, ph = numeric.dir_angles(P, a["target"], a["frame"])
+                    if tuple(map(tuple, groups)) not in doc:
+                        chk.violation(f"undocumented-angle-name:{sym.name}", f"{sym.name} is not a name the topology {tree} defines", {"tree": tree})
+                        continue
+                    tgt, frm = doc[tuple(map(tuple, groups))]
+                    th, ph = numeric.dir_angles(P, tgt, frm)
                     if kind == "theta":
                         d = np.abs(lib - th)
                         d = np.where((np.sin(th) > 1e-3), d, 0)  # acos is ill-conditioned at the poles
@@ -158,7 +166,7 @@ def run(chk, replay=None):
     chk.part("deviation_sensitivity", violated=res.violated)
 
     # 2. every concrete topology object
-    records, numeric_jobs = [], []
+    records, numeric_jobs, drift_jobs = [], [], []
     rid = 0
     per_n_limit = {2: None, 3: None, 4: None, 5: 400 if tier == "thorough" else 60}
     for n in (2, 3, 4, 5):
@@ -168,6 +176,8 @@ def run(chk, replay=None):
                     rec, exprs = topology_record(rid, t)
                 except topo.ProjectionError as e:
                     chk.spec_drift(f"expression shape not understood for a {n}-body topology: {e}")
+                    if len(drift_jobs) < 6:
+                        drift_jobs.append((t, raw_exprs(t), f"n={n} canonical#{ci} (unprojectable)"))
                     continue
                 records.append(rec)
                 chk.nontrivial(("topology", tuple(map(tuple, rec["tree"])), tuple(sorted(t.intermediate_edge_ids)), tuple((k, v.originating_node_id, v.ending_node_id) for k, v in sorted(t.edges.items()))))
@@ -182,15 +192,24 @@ def run(chk, replay=None):
             for permuted in (False, True):
                 if n == 5 and permuted:
                     continue  # 120 permutations x nested projections: covered by single-topology records
-                records.append(adapter_record(rid, [ct], permuted))
+                try:
+                    records.append(adapter_record(rid, [ct], permuted))
+                except topo.ProjectionError as e:
+                    chk.spec_drift(f"adapter expressions not understood: {e}")
                 rid += 1
         for a, b in itertools.combinations(cans, 2):
-            records.append(adapter_record(rid, [a, b], False))
+            try:
+                records.append(adapter_record(rid, [a, b], False))
+            except topo.ProjectionError as e:
+                chk.spec_drift(f"adapter expressions not understood: {e}")
             rid += 1
         # relabelled variants registered together (what a user gets from several reactions)
         for ct in cans:
             vs = list(topo.variants(ct, limit=6, rng=rng))
-            records.append(adapter_record(rid, vs, False))
+            try:
+                records.append(adapter_record(rid, vs, False))
+            except topo.ProjectionError as e:
+                chk.spec_drift(f"adapter expressions not understood: {e}")
             rid += 1
     chk.count(len(records))
     tv = trace.validate("Trace_Kin", records, timeout=1800)
@@ -214,7 +233,7 @@ def run(chk, replay=None):
 
     # 4. numeric observation law
     worst = 0.0
-    for t, exprs, label in numeric_jobs:
+    for t, exprs, label in drift_jobs + numeric_jobs:
         w, fams = numeric_check(chk, t, exprs, rng, 64, label)
         worst = max(worst, w)
     chk.part("numeric", topologies=len(numeric_jobs), worst_abs_diff=worst, families=["generic", "massless", "near-threshold", "boosted"], cse=[True, False])
